@@ -229,6 +229,26 @@ def check_eq_ord_hash(ctx, res, config="all"):
                 for r in flow.roots_of_operand(t["args"][0]):
                     if r[0] == "param":
                         iters.setdefault(r[1], 0)
+        # content reads inside closures created here (`len_cmp.then_with(|| a.iter().rev().cmp(b.iter().rev()))`): map the
+        # closure's captured variables back to this function's parameters
+        for x, si, s_ in b.stmts():
+            rv = s_.get("rv")
+            if not (rv and rv["k"] == "aggregate" and rv.get("akind") == "closure") or x not in live_:
+                continue
+            cb = facts.body(rv["closure"])
+            if cb is None:
+                continue
+            cap = {}
+            for k_, o in enumerate(rv["ops"]):
+                for r in flow.roots_of_operand(o):
+                    if r[0] == "param":
+                        cap[str(k_)] = r[1]
+            cflow = core.Flow(cb)
+            for i, t in cb.calls():
+                if callee_name(t) in ("iter", "cmp", "eq", "ne", "zip", "rev", "index", "get") and t["args"]:
+                    for r in cflow.roots_of_operand(t["args"][0]):
+                        if r[0] == "param" and r[1] == 1 and r[2][:1] and r[2][0] in cap:
+                            iters.setdefault(cap[r[2][0]], 0)
         # iteration may be via zip(a.iter().rev(), b.iter().rev()) - roots flow through 'iter' (transparent)
         ok = set(lens) >= {1, 2} and set(iters) >= {1, 2}
         if ok:
